@@ -233,13 +233,15 @@ CHECKS = {
    category='proof',
    text='Lean theorems over the rationals, for every block dimension: scale(inverse) undoes scale on second-order-cone blocks (hyperbolic '
         'Householder identity) and on the componentwise part; sinv undoes sprod on q blocks; ssqr is sprod with itself; triusc after trisc '
-        'restores the lower triangle of an s block; symm symmetrises and keeps the lower triangle; the s-block inner product is symmetric. '
+        'restores the lower triangle of an s block; symm symmetrises and keeps the lower triangle; the s-block inner product is symmetric; '
+        'packed storage: what pack stores, unpack after pack restores the lower triangle, pack is an isometry when r*r = 2. '
         'The model (transcribed from the Python reference kernels) is compared exactly, on dyadic data, with BOTH implementations -- the '
         'compiled misc_solvers and the pure-Python fall-backs obtained from the current misc.py -- for sdot, symm, trisc, triusc, scale (all '
-        'flag combinations, multi-column) and sprod; inverse/adjoint/pack/unpack/isometry/max_step identities are run on both.',
+        'flag combinations, multi-column) and sprod; pack / unpack against the Lean model (evaluated at r = 0 and 1, combined with the float sqrt 2); '
+        'inverse/adjoint/isometry identities and max_step with s blocks (boundary, eigen-decomposition) are run on both.',
    design_ref='DESIGN.md 5 C08',
-   note='Trusted: Lean kernel, hand-written model Model/Kernels.lean, harness. pack/unpack (sqrt 2), scale2, sinv on s blocks, max_step and the '
-        's-block part of scale are checked through identities / exact comparison only, not proved.',
+   note='Trusted: Lean kernel, hand-written model Model/Kernels.lean, harness. scale2, sinv on s blocks, max_step and the '
+        's-block part of scale are checked through identities / exact comparison only, not proved; sqrt 2 enters pack/unpack as a float.',
    technique='Lean 4 proof (algebraic identities by induction over block length) + exact two-implementation correspondence'),
  'C07': dict(
    category='proof',
